@@ -3,7 +3,81 @@ import vf
 from checks import pm_common
 
 PROP = "C06"
-MATCHERS = {}
+
+def _rem(h):
+    return any(x in ("remove_last", "remove_maximal") for x in h)
+
+
+def _m_ru_map(dev):
+    h = dev.get("hist", []) + [dev.get("act", {}).get("op")]
+    return dev.get("cfg", "").startswith("RUv/") and "/map" in dev.get("cfg", "") and _rem(dev.get("hist", [])) \
+        and "insert" in dev.get("hist", []) and h[-1] in ("vine_swap", "remove_maximal", "insert", "remove_last") \
+        and ("vine_swap" in h or "remove_maximal" in h)
+
+
+def _m_chain(dev):
+    h = dev.get("hist", []) + [dev.get("act", {}).get("op")]
+    return dev.get("cfg", "").startswith("CHv/") and _rem(dev.get("hist", [])) and "vine_swap" in h
+
+
+def _m_ru_nobarcode(dev):
+    return dev.get("cfg", "").startswith("RUv/") and "/nobarcode/map" in dev.get("cfg", "") \
+        and dev.get("act", {}).get("op") in ("vine_swap", "remove_maximal")
+
+
+def _m_chain_insert_after_swap(dev):
+    cfg = dev.get("cfg", "")
+    return cfg.startswith("CHv/") and "INTRUSIVE" not in cfg and "vine_swap" in dev.get("hist", []) \
+        and "insert" in (dev.get("hist", [])[dev.get("hist", []).index("vine_swap"):] + [dev.get("act", {}).get("op")])
+
+
+MATCHERS = {"C06-ru-map-removal-then-swap": _m_ru_map, "C06-chain-removal-and-swap": _m_chain,
+            "C06-ru-nobarcode-map": _m_ru_nobarcode, "C06-chain-insert-after-swap": _m_chain_insert_after_swap}
+
+
+
+def crash_as_dev(c, part):
+    """A crash record names the configuration, the group and the step: recover the history from the groups file."""
+    import glob, json, os, re
+    m = re.match(r"(\S+) g=(\d+) (path|edge) u=(-?\d+) (?:step|k)=(\d+)", c.get("where", ""))
+    if not m:
+        return {"cfg": c.get("where", "")}
+    cfg, g, phase, u, x = m.group(1), int(m.group(2)), m.group(3), int(m.group(4)), int(m.group(5))
+    dirs = sorted(glob.glob(os.path.join(vf.BUILD, "work", "%s_%s_%d" % (PROP, part, os.getpid()))))
+    if not dirs:
+        return {"cfg": cfg}
+    with open(os.path.join(dirs[0], "groups.ndjson")) as f:
+        for i, line in enumerate(f):
+            if i == g:
+                grp = json.loads(line)
+                ops = [s["act"]["op"] for s in grp["path"]]
+                if phase == "path":
+                    return {"cfg": cfg, "hist": ops[:x], "act": {"op": ops[x] if x < len(ops) else None}}
+                e = [e for e in grp["edges"] if e["k"] == x]
+                return {"cfg": cfg, "hist": ops, "act": {"op": e[0]["act"]["op"] if e else None}}
+    return {"cfg": cfg}
+
+
+def witness_ru_vine_ids(fnd, bins):
+    """Known finding C06-ru-vine-ids: RU + vine updates with identifiers different from positions.  Replays the
+    two-step witness (insert a vertex with identifier 2, remove_last) and reports it only if it still fails."""
+    import json, os
+    work = os.path.join(vf.BUILD, "work", "%s_witness_%d" % (PROP, os.getpid()))
+    os.makedirs(work, exist_ok=True)
+    st = [{"i": 0, "obs": {"n": 0, "dims": [], "bars_set": [], "checks_failed": []}},
+          {"i": 1, "obs": {"n": 1, "dims": [0], "bars_set": [{"dim": 0, "birth": 0, "death": -1}], "checks_failed": []}}]
+    with open(os.path.join(work, "states.ndjson"), "w") as f:
+        for s in st:
+            f.write(json.dumps(s) + "\n")
+    with open(os.path.join(work, "groups.ndjson"), "w") as f:
+        f.write(json.dumps({"u": 1, "path": [{"act": {"op": "insert", "d": 0, "bd_set": []}, "to": 1}],
+                            "edges": [{"k": 0, "act": {"op": "remove_last"}, "to": 0}]}) + "\n")
+    out = os.path.join(work, "out.ndjson")
+    vf.run([bins[0], os.path.join(work, "states.ndjson"), os.path.join(work, "groups.ndjson"), out],
+           env={"VF_IDS": "gap", "VF_P": "2"}, ok_codes=(0, 3), timeout=120)
+    bad = [r for r in vf.read_ndjson(out) if r.get("kind") in ("crash", "deviation") and "RUv/" in json.dumps(r)]
+    if bad:
+        fnd.seen["C06-ru-vine-ids"] = len(bad)
 
 
 def main(tier):
@@ -26,7 +100,9 @@ def main(tier):
             ev.write()
             return 1
         for c in crashes:
-            unknown.append({"part": part, **c})
+            cd = crash_as_dev(c, part)
+            if fnd.match(PROP, cd, MATCHERS) is None:
+                unknown.append({"part": part, **c})
         for d in devs:
             if fnd.match(PROP, d, MATCHERS) is None:
                 unknown.append({"part": part, **d})
@@ -42,6 +118,7 @@ def main(tier):
                       "x indexing x barcode on/off); barcode, return value (kept/exchanged) and identities compared after every step"
                       % [pm_common.COLS[c] for c in cols])
     ev.assumptions = ["bounded: <= 5 (quick) / 6 (thorough) cells over Z2, walks of 16 steps", "identities evaluated by the harness on the real columns"]
+    witness_ru_vine_ids(fnd, z2bins)
     fnd.report(PROP)
     if unknown:
         ev.violations = len(unknown)
